@@ -2,11 +2,52 @@ import os, shutil
 from driver import sh, goenv, log, Infra
 
 def render_corpus(ctx, prop, tier, cfg, world):
-    """Generate the combinator corpus with the working tree's own generator (CLI built from the scratch copy)."""
+    """Generate the combinator corpus and the seeded template families with the working tree's own
+    generator (CLI built from the scratch copy). A seeded template whose generated code does not
+    compile cannot be used to decide anything: it is replaced by a trivial one and reported in the
+    evidence (ctx['notes']); the fixed corpus failing to generate or compile is build trouble."""
+    import shapes, re, json
     d = os.path.join(ctx['src'], 'zzverif', 'worlds', 'render', 'corpus')
-    p = sh([os.path.join(ctx['bindir'], 'templ'), 'generate', '-path', d], cwd=ctx['src'], env=goenv(), check=False)
-    if p.returncode != 0 or not os.path.exists(os.path.join(d, 'c_templ.go')):
-        raise Infra('templ generate failed on the render corpus:\n' + p.stdout[-3000:])
+    seed = int(os.environ.get('VERIF_SEED', '1') or '1')
+    tcfg = cfg['tiers'][tier]
+    dropped = {'shapes': set(), 'ashapes': set()}
+    for attempt in range(6):
+        src, reg, js = shapes.generate(seed, tcfg.get('shapes', 64), tcfg.get('ashapes', 48), dropped)
+        for name, text in (('shapes.templ', src), ('shapes_reg.go', reg), ('shapes.json', js)):
+            with open(os.path.join(d, name), 'w') as f:
+                f.write(text)
+        p = sh([os.path.join(ctx['bindir'], 'templ'), 'generate', '-path', d], cwd=ctx['src'], env=goenv(), check=False)
+        if p.returncode != 0 or not os.path.exists(os.path.join(d, 'c_templ.go')) or not os.path.exists(os.path.join(d, 'shapes_templ.go')):
+            raise Infra('templ generate failed on the render corpus:\n' + p.stdout[-3000:])
+        b = sh([os.environ.get('VERIF_GO', 'go1.26.8'), 'build', '-gcflags=-e', './zzverif/worlds/render/corpus'], cwd=ctx['src'], env=goenv(), check=False)
+        if b.returncode == 0:
+            break
+        # which seeded templates do the errors belong to?
+        gen = open(os.path.join(d, 'shapes_templ.go')).read().split('\n')
+        starts = [(i + 1, m.group(1), int(m.group(2))) for i, l in enumerate(gen) for m in [re.match(r'func (A?Shape)(\d+)\(', l)] if m]
+        bad = set()
+        other = []
+        for m in re.finditer(r'corpus/([a-z_]+\.go):(\d+):\d+: (.*)', b.stdout):
+            if m.group(3).startswith('too many errors'):
+                continue
+            if m.group(1) != 'shapes_templ.go':
+                other.append(m.group(0))
+                continue
+            ln = int(m.group(2))
+            owner = [st for st in starts if st[0] <= ln]
+            if owner:
+                bad.add((owner[-1][1], owner[-1][2]))
+        if other or not bad:
+            raise Infra('the render corpus does not compile:\n' + b.stdout[-3000:])
+        for kind, i in bad:
+            dropped['shapes' if kind == 'Shape' else 'ashapes'].add(i)
+    else:
+        raise Infra('seeded templates still do not compile after dropping %s' % dropped)
+    nd = len(dropped['shapes']) + len(dropped['ashapes'])
+    if nd:
+        note = 'generated code of %d seeded template(s) did not compile; they were replaced by trivial ones: Shape%s AShape%s' % (nd, sorted(dropped['shapes']), sorted(dropped['ashapes']))
+        log('[prep %s] WARNING: %s' % (prop, note))
+        ctx.setdefault('notes', []).append(note)
 
 
 def watch_corpus(ctx, prop, tier, cfg, world):
